@@ -81,10 +81,16 @@ func (e *liveEventer) OnJoinEvent(msg *service.Message, key string, err error) {
 		es = err.Error()
 	}
 	e.l.rec.log(e.idx, "R", "join", "key", key, "ok", err == nil, "err", es, "serial", int(msg.JTMessage.Header.SerialNumber))
+	if e.l.readHold != nil { // C09: messages handed to the join callback are retained as well
+		e.l.readHold(e.idx, msg)
+	}
 }
 func (e *liveEventer) OnLeaveEvent(key string) { e.l.rec.log(e.idx, "R", "leave", "key", key) }
 func (e *liveEventer) OnNotSupportedEvent(msg *service.Message) {
 	e.l.rec.log(e.idx, "R", "unsupported", msgFields(msg)...)
+	if e.l.readHold != nil {
+		e.l.readHold(e.idx, msg)
+	}
 }
 func (e *liveEventer) OnReadExecutionEvent(msg *service.Message) {
 	e.l.rec.log(e.idx, "R", "readcb", msgFields(msg)...)
